@@ -160,6 +160,35 @@ def ProcessOptions(options, document):
 '''
 
 
+COLTYPE_PKG_R = '''from plasTeX.Base.LaTeX.Arrays import ColumnType
+
+def ProcessOptions(options, document):
+    ColumnType.new('Z', {'text-align': 'right'})
+'''
+COLTYPE_PKG_Y = '''from plasTeX.Base.LaTeX.Arrays import ColumnType
+
+def ProcessOptions(options, document):
+    ColumnType.new('Y', {'text-align': 'right'})
+'''
+# package -> (letter, value written into the letter's cell)
+COLTYPE_PKGS = {'vfcoltype': ('Z', 1), 'vfcoltyper': ('Z', 2), 'vfcoltypey': ('Y', 2)}
+ENVS = {
+    'eqnarray': '\\begin{eqnarray}a&=&b\\label{q%(n)da}\\\\c&=&d\\label{q%(n)db}\\\\e&=&f\\end{eqnarray} see \\ref{q%(n)da} and \\ref{q%(n)db} ',
+    'eqnarray*': '\\begin{eqnarray*}a&=&b\\\\c&=&d\\end{eqnarray*} ',
+    'tabular*': '\\begin{tabular*}{10pt}{lc}a&b\\\\c&d\\end{tabular*} ',
+    'array': '$\\begin{array}{lc}a&b\\\\c&d\\end{array}$ ',
+    'equation': '\\begin{equation}x=y\\label{q%(n)dc}\\end{equation} see \\ref{q%(n)dc} ',
+    'displaymath': '\\begin{displaymath}x=y\\end{displaymath} ',
+    'figure': '\\begin{figure}body\\caption{Cap}\\label{q%(n)dd}\\end{figure} see \\ref{q%(n)dd} ',
+    'figure*': '\\begin{figure*}body\\caption{Cap}\\end{figure*} ',
+    'table': '\\begin{table}\\begin{tabular}{l}a\\\\b\\end{tabular}\\caption{Cap}\\end{table} ',
+    'table*': '\\begin{table*}body\\caption{Cap}\\end{table*} ',
+    'description': '\\begin{description}\\item[term] text\\end{description} ',
+    'center': '\\begin{center}mid\\\\dle\\end{center} ',
+    'quote': '\\begin{quote}said\\end{quote} ',
+}
+
+
 def tex_atoms(atoms, inmath=False):
     return ''.join(tex_atom(a, inmath) for a in atoms)
 
@@ -209,6 +238,8 @@ def tex_atom(a, inmath=False):
         return '\\begin{verse}%s line \\end{verse} ' % ('[3pt]' if a.get('opt') else '')
     if k == 'bold':
         return '\\textbf%s{%s} ' % ('<2>' if a.get('overlay') else '', a['w'])
+    if k == 'env':
+        return ENVS[a['e']] % dict(n=a['n'])
     if k == 'citealias':
         return '\\defcitealias{%s}{Paper I} ' % a['k']
     if k == 'raw':
@@ -300,10 +331,15 @@ def tok_atoms(atoms, out, reads):
                     out.append([12, c])
                     reads.append(('weak', nm))
         elif k == 'tabular':
-            c = cell('ColumnType.columnTypes')
-            if c is not None:
-                out.append([12, c])
-                reads.append(('weak', 'ColumnType.columnTypes'))
+            # one cell per column letter of the registry (member = code point); built-in letters are never redefined here
+            for ch in a['spec']:
+                if ch in 'ZY' and row_of('ColumnType.columnTypes') is not None:
+                    out.append([12, [row_of('ColumnType.columnTypes'), ord(ch)]])
+                    reads.append(('weak', 'ColumnType.columnTypes'))
+        elif k == 'env':
+            out.append([8, 1] if a['e'] != 'description' else 0)
+            if a['e'] == 'description':
+                out += [4, 6, 5]
         elif k == 'openout':
             out.append([8, 3])
         elif k == 'newif':
@@ -370,8 +406,9 @@ def doc_tokens(doc):
                 out.append([11, cell('verse.args'), 1])
         elif name == 'natbib' and isinstance(p, (list, tuple)) and 'sectionbib' in p[1]:
             out.append([11, cell('bibliography.level'), 1])
-        elif name == 'vfcoltype':
-            out.append([11, cell('ColumnType.columnTypes'), 1])
+        elif name in COLTYPE_PKGS:
+            letter, v = COLTYPE_PKGS[name]
+            out.append([11, [row_of('ColumnType.columnTypes'), ord(letter)], v])
     out.append([8, 1])      # \newcounter{obs}
     tok_atoms(doc['body'], out, reads)
     return out, reads
@@ -450,7 +487,7 @@ def rand_atom(rng, depth, feats, open_ok=False):
     if f == 'math' and depth > 0:
         body = [dict(m='sym', w=rng.choice('xyz'))]
         if rng.random() < 0.4:
-            inner = [x for x in feats if x not in ('section', 'tabular', 'verse', 'printindex')]
+            inner = [x for x in feats if x not in ('section', 'tabular', 'verse', 'printindex', 'env')]
             body.append(dict(m='box', body=rand_atoms(rng, depth - 1, inner, rng.randint(1, 2)), closed=True))
             if rng.random() < 0.5:
                 body.append(dict(m='sym', w='w'))
@@ -464,7 +501,9 @@ def rand_atom(rng, depth, feats, open_ok=False):
     if f == 'index':
         return dict(a='index', w=rng.choice(WORDS))
     if f == 'tabular':
-        return dict(a='tabular', spec=rng.choice(['lc', 'rl', 'Zl', 'cZ']))
+        return dict(a='tabular', spec=rng.choice(['lc', 'rl', 'Zl', 'cZ', '|l|Z|', 'lY']))
+    if f == 'env':
+        return dict(a='env', e=rng.choice(sorted(ENVS)), n=rng.randint(0, 10 ** 6))
     if f == 'openout':
         return dict(a='openout')
     if f == 'newif':
@@ -492,7 +531,7 @@ def open_tail(rng, depth=2):
     return [dict(a='list', kind='itemize', body=[dict(a='text', w='o'), dict(a='math', disp=False, body=[dict(m='sym')], closed=False)], closed=False)]
 
 
-BASE_FEATS = ['text', 'text', 'param', 'setlen', 'read', 'read', 'list', 'list', 'math', 'math', 'macro', 'section', 'index', 'tabular',
+BASE_FEATS = ['env', 'env', 'env', 'text', 'text', 'param', 'setlen', 'read', 'read', 'list', 'list', 'math', 'math', 'macro', 'section', 'index', 'tabular',
               'openout', 'newif', 'newcount', 'ref']
 
 
@@ -510,8 +549,8 @@ def rand_doc(rng, allow_open=True, role='A'):
         feats.append('verse')
     if rng.random() < 0.08:
         pkgs.append(['natbib', 'sectionbib'])
-    if rng.random() < 0.12:
-        pkgs.append('vfcoltype')
+    if rng.random() < 0.2:
+        pkgs.append(rng.choice(['vfcoltype', 'vfcoltype', 'vfcoltyper', 'vfcoltypey']))
     body = rand_atoms(rng, 2, feats, rng.randint(2, 6))
     if any(a['a'] == 'index' for a in body) and rng.random() < 0.8:
         body.append(dict(a='printindex'))
@@ -557,6 +596,15 @@ def hand_cases():
     out.append(('tabular-class-token', [D('report', [dict(a='tabular', spec='lc')])], D('report', [dict(a='tabular', spec='rl'), txt('t')])))
     out.append(('coltype-registry', [D('report', [dict(a='tabular', spec='Zl')], pkgs=['vfcoltype'])], D('report', [dict(a='tabular', spec='Zl')])))
     out.append(('natbib-sectionbib', [D('book', [txt('a')], pkgs=[['natbib', 'sectionbib']])], D('book', [txt('b')])))
+    env = lambda e, n: dict(a='env', e=e, n=n)   # noqa
+    out.append(('base-class-then-subclass-locals', [D('report', [env('eqnarray*', 1)])], D('report', [env('eqnarray', 2), txt('t')])))
+    out.append(('subclass-then-base-class-locals', [D('report', [env('eqnarray', 1)])], D('report', [env('eqnarray*', 2), env('eqnarray', 3)])))
+    out.append(('starred-environments', [D('report', [env('tabular*', 1), env('figure*', 2), env('table*', 3), env('array', 4), env('displaymath', 5)])],
+                D('report', [dict(a='tabular', spec='lc'), env('figure', 6), env('table', 7), env('equation', 8), env('array', 9)])))
+    out.append(('coltype-redefined-by-B', [D('report', [dict(a='tabular', spec='lZ')], pkgs=['vfcoltype'])],
+                D('report', [dict(a='tabular', spec='|l|Z|')], pkgs=['vfcoltyper'])))
+    out.append(('coltype-other-letter-in-B', [D('report', [dict(a='tabular', spec='lZ')], pkgs=['vfcoltype'])],
+                D('report', [dict(a='tabular', spec='lY')], pkgs=['vfcoltypey'])))
     out.append(('natbib-citealias', [D('report', [dict(a='citealias', k='k'), txt('x')], pkgs=['natbib'])],
                 D('report', [dict(a='raw', s='\\citetalias{k} '), txt('y')], pkgs=['natbib'])))
     out.append(('newif-newcount', [D('report', [dict(a='newif'), dict(a='newcount', v=4)])], D('report', [dict(a='newif'), dict(a='newcount', v=6)])))
@@ -595,6 +643,10 @@ def small_pool():
         D('report', [dict(a='tabular', spec='lc')]),
         D('report', [dict(a='ref', n=1)], pkgs=['hyperref']),
         D('report', [dict(a='openout'), dict(a='param', reg='hbadness', v=3), rd('hbadness')]),
+        D('report', [dict(a='env', e='eqnarray*', n=1), dict(a='env', e='tabular*', n=2)]),
+        D('report', [dict(a='env', e='eqnarray', n=3), dict(a='env', e='figure', n=4)]),
+        D('report', [dict(a='tabular', spec='|l|Z|')], pkgs=['vfcoltyper']),
+        D('report', [dict(a='tabular', spec='lZ')], pkgs=['vfcoltype']),
     ]
     return pool
 
@@ -684,6 +736,8 @@ def _rep(v, depth=0):
     nn = getattr(v, 'nodeName', None)
     if isinstance(nn, str):
         return '<node %s>' % nn
+    if type(v).__name__ == 'Argument' and depth < 4:
+        return 'Arg(%s,%s)' % (getattr(v, 'name', '?'), _rep(getattr(v, 'options', None), depth + 1))
     return '<%s>' % type(v).__name__
 
 
@@ -861,6 +915,7 @@ def child_sequence(case, pkgdir, baseline=None):
     # after B as well (processing B is processing a document)
     out['leaks_after_B'], out['unlisted_after_B'] = diff_cells(s_init, fresh_view(), mods_init)
     out['bxml'] = bxml
+    out['memo'] = memo_view()
     return out
 
 
@@ -901,9 +956,19 @@ def diff_cells(s0, s1, mods_init):
     return leaks, unlisted
 
 
+def memo_view():
+    """the per-class caches (@locals, @arguments) as OWNED by each class (vars(cls), never inherited): key -> digest"""
+    out = {}
+    for k, v in sweep().items():
+        attr = k.rsplit('.', 1)[1] if '.' in k.split(':', 1)[1] else ''
+        if attr in IGNORED_ATTRS:
+            out[k] = hashlib.sha256(v.encode()).hexdigest()[:12]
+    return out
+
+
 def child_alone(case, pkgdir):
     st, x, td = process_one(case['B'], pkgdir)
-    return dict(status=st if st == 'ok' else '%s %s' % (st, x), bxml=x if st == 'ok' else None)
+    return dict(status=st if st == 'ok' else '%s %s' % (st, x), bxml=x if st == 'ok' else None, memo=memo_view())
 
 
 def in_child(fn, *args):
@@ -943,11 +1008,12 @@ def in_child(fn, *args):
 def ensure_pkgdir():
     d = os.path.join(VERIF, 'build', 'C17', PKG_DIRNAME)
     os.makedirs(d, exist_ok=True)
-    p = os.path.join(d, 'vfcoltype.py')
-    if not os.path.exists(p) or open(p).read() != COLTYPE_PKG:
-        tmp = p + '.%d' % os.getpid()
-        open(tmp, 'w').write(COLTYPE_PKG)
-        os.replace(tmp, p)
+    for name, text in (('vfcoltype', COLTYPE_PKG), ('vfcoltyper', COLTYPE_PKG_R), ('vfcoltypey', COLTYPE_PKG_Y)):
+        p = os.path.join(d, name + '.py')
+        if not os.path.exists(p) or open(p).read() != text:
+            tmp = p + '.%d' % os.getpid()
+            open(tmp, 'w').write(text)
+            os.replace(tmp, p)
     return d
 
 
@@ -979,6 +1045,13 @@ def run_impl(case):
             res['alone_exec'] = exec_alone(case, pkgdir)
     finally:
         os.chdir(cwd)
+    # the caches B alone leaves on the classes it used must be owned, with the same content, by the same classes after the sequence
+    ma, ms = alone.pop('memo', None), seq.pop('memo', None)
+    if isinstance(ma, dict) and isinstance(ms, dict):
+        res['memo_diff'] = sorted(short_of(k) + (' (not owned by the class)' if k not in ms else ' (different content)')
+                                  for k in ma if ms.get(k) != ma[k])[:8]
+    if isinstance(res.get('alone_exec'), dict):
+        res['alone_exec'].pop('memo', None)
     # keep the observation small: hashes of the trees, the first difference in clear
     a, b = seq.get('bxml'), alone.get('bxml')
     res['bdiff'] = (a != b)
@@ -1105,8 +1178,13 @@ def property_verdict(case, io, mo):
                                                                                  dict(after=status[nA:], alone=alone.get('status'))))
     if unknown:
         return dict(violation=True, key=unknown[0], expected='no cell differs; B identical', what=' ; '.join(what))
+    beamer = any(d['cls'] == 'beamer' for d in case['docs'] + [case['B']])
+    if io.get('memo_diff') and status[nA:] == ['ok'] and alone.get('status') == 'ok':
+        md = io['memo_diff']
+        what.append('the per-class caches that B alone leaves on the classes it uses are not what the same classes hold after the sequence: %s' % '; '.join(md))
+        key = 'C17:stale-arguments-cache' if beamer else 'C17:memo:' + md[0].split(' (')[0]
+        return dict(violation=True, key=key, expected='every class owns the cache B alone computes for it', what=' ; '.join(what))
     if bdiff:
-        beamer = any(d['cls'] == 'beamer' for d in case['docs'] + [case['B']])
         if leaks and not (beamer and not m_attr):
             if m_attr or not model_ok:
                 # B reads a cell that differs: attributable to the (listed) cells
@@ -1151,7 +1229,8 @@ def correspondence_verdict(case, io, mo):
                             what='after document %d the real %s is %s, the Model says %s' % (i, n, r.get(n), v))
     # the cells the Model says differ for B  vs  the cells that do (restricted to the cells of the case)
     names = model_cell_names(case)
-    m_leaks = sorted(names.get(json.dumps(c), str(c)) for c in mo[2])
+    ct = row_of('ColumnType.columnTypes')
+    m_leaks = sorted('ColumnType.columnTypes' if c[0] == ct else names.get(json.dumps(c), str(c)) for c in mo[2])
     i_leaks = sorted({x.split(' (')[0] for x in seq.get('leaks', [])})
     i_leaks_m = [x for x in i_leaks if x in names.values() or any(x == n + '.value' for n in REGS)]
     m_norm = sorted({(n + '.value') if n in REGS else n for n in m_leaks})
